@@ -34,3 +34,11 @@ package main
 //@ call ServiceRequest cfg (gnb_gtp string, c stgutg.Conf): gnb_gtp == c.Configuration.Gnb_gtp
 //@ call ReleasePDU cfg (sst int32, sd string, c stgutg.Conf): sst == c.Configuration.SST && sd == c.Configuration.SD
 //@ call DeregisterUE cfg (mnc string, c stgutg.Conf): mnc == c.Configuration.Mnc
+
+// ---- C02: repetition i of every later step is run for the i-th registered UE (and its stored PDU) ----
+// (elements of the lists are not tracked individually: element i is an unknown but fixed value, read
+// here and at the call through the same index)
+//@ call EstablishPDU who (ue *tglib.RanUeContext, i int, ueList []*tglib.RanUeContext): 0 <= i && i < len(ueList) && ue == ueList[i]
+//@ call ServiceRequest who (ue *tglib.RanUeContext, pdu []byte, i int, ueList []*tglib.RanUeContext, pduList [][]byte): 0 <= i && i < len(ueList) && i < len(pduList) && ue == ueList[i] && len(pdu) == len(pduList[i]) && vc.Forall(0, len(pdu), func(k int) bool { return pdu[k] == pduList[i][k] })
+//@ call ReleasePDU who (ue *tglib.RanUeContext, i int, ueList []*tglib.RanUeContext): 0 <= i && i < len(ueList) && ue == ueList[i]
+//@ call DeregisterUE who (ue *tglib.RanUeContext, i int, ueList []*tglib.RanUeContext): 0 <= i && i < len(ueList) && ue == ueList[i]
